@@ -22,7 +22,7 @@ BALANCES = Rec('balances', attrs=dict(summary_func=Opt(Str()), from_clause=Dyn()
 
 @contract(f'{QC}:transform_journal')
 class transform_journal:
-    props = ['C14']
+    props = ['C14', 'C13']       # C13: every qualifier of the statement's FROM clause reaches the SELECT (the clause is the same node)
     params = {'journal': JOURNAL}
     modifies = []
     externals = PARSE
@@ -40,7 +40,7 @@ class transform_journal:
 
 @contract(f'{QC}:transform_balances')
 class transform_balances:
-    props = ['C14']
+    props = ['C14', 'C13']
     params = {'balances': BALANCES}
     modifies = []
     externals = PARSE
